@@ -9,6 +9,7 @@ EXPLANATION = (
     "h%(1<<b)) and p = leading_zeros(h>>b) + 1 - b (linear normal form), narrowed to u8 losslessly (p <= 61 given 4 <= b). "
     "R17-delegation: add(obj) = add_hashed(hash_one(buildhasher, obj)); Extend impls call add per item. R17-roundtrip: the "
     "constructor stores its registers argument unmodified, registers() returns the field, derived PartialEq covers registers, b, buildhasher."
+    ' The join is applied on every path of add_hashed — either `cell = max(cell, p)` unconditionally or `if cell < p { cell = p }` (skipped exactly when it is a no-op).'
 )
 NOT_DECIDED = "nothing structural; count() accuracy is C03"
 ASSUMPTIONS = ["u64::leading_zeros(0) == 64", "cmp::max on u8 is the lattice join"]
